@@ -316,6 +316,18 @@ var c02HostileTemplates = []string{
 	`{{ printf "%s" $labels }}`, `{{ $labels.job | reReplaceAll "a(" "b" }}`, `{{ index $labels "a(b" }}`, `{{ .Labels }}{{ .Value }}{{ . }}`,
 }
 
+// lone CRs in front of a document that ends in a literal block scalar: YAML's line numbers run ahead of the LF line
+// slice by one per CR, so some variant puts the block's header exactly one past the last LF line (the index the seeded
+// change C02-scalar-line-off-by-one reads)
+func c02CRBlockSnippets() []string {
+	var out []string
+	for k := 1; k <= 7; k++ {
+		out = append(out, strings.Repeat("\r", k)+"groups:\n- name: g\n  rules:\n  - record: a\n    expr: up\nnotes: |\n  a\n  b\n  c\n")
+		out = append(out, strings.Repeat("\r", k)+"- record: a\n  expr: up\n- notes: |\n    a\n    b\n    c")
+	}
+	return out
+}
+
 var c02Snippets = []string{
 	// anchors that contain themselves (yaml.v3 builds a cyclic node graph) and alias bombs
 	"groups:\n- name: g\n  rules:\n  - alert: A\n    expr: up == 0\n    for: \"\"\n",
@@ -559,6 +571,13 @@ func runC02(r *hx.Run, replay string) {
 	for _, s := range c02Snippets {
 		mk(s, "snippet")
 		mk(s, "snippet")
+	}
+	for _, s := range c02CRBlockSnippets() {
+		// both parser modes, deterministically
+		for _, strict := range []bool{true, false} {
+			cs := c02Case{Content: s, Strict: strict, Origin: "snippet"}
+			c02Eval(r, cs, dir)
+		}
 	}
 	budget := r.N
 	for i, s := range corpus {
